@@ -2,4 +2,5 @@ import EqsigVerif.Lemmas.Im.Velo
 import EqsigVerif.Lemmas.Im.Series
 import EqsigVerif.Lemmas.Im.Dur
 import EqsigVerif.Lemmas.Im.CavDp
+import EqsigVerif.Lemmas.Im.AriasReal
 /-! # Lemmas for `Model/Im.lean` (C08, C09, C10): umbrella module -/
